@@ -5,6 +5,10 @@ PANIC_EXC = {
         "block_cursor.as_mut().unwrap() directly follows `if self.block_cursor.is_none() { ...; self.block_cursor = Some(..) }`",
     ("<sst::SstCursor as sst::Cursor>::prev", "unwrap(SstCursor::load_block_cursor)"):
         "block_cursor.as_mut().unwrap() directly follows `if self.block_cursor.is_none() { ...; self.block_cursor = Some(..) }`",
+    ("<sst::SstCursor as sst::Cursor>::next", "unwrap(.block_cursor)"):
+        "the same site when the block is entered through a helper: as_mut().unwrap() follows `if self.block_cursor.is_none() { .. enter the block .. }`, whose every success path stores Some(..)",
+    ("<sst::SstCursor as sst::Cursor>::prev", "unwrap(.block_cursor)"):
+        "the same site when the block is entered through a helper: as_mut().unwrap() follows `if self.block_cursor.is_none() { .. enter the block .. }`, whose every success path stores Some(..)",
     ("<sst::concat_cursor::ConcatenatingCursor as sst::Cursor>::seek", "unwrap(Cursor::key)"):
         "the preceding loop leaves only with key().is_some() or mid == left, and mid == left breaks before the unwrap",
     ("sst::concat_cursor::ConcatenatingCursor::reposition", "panic"):
